@@ -31,6 +31,8 @@ def main():
     env = dict(os.environ, PYTHONPATH=str(wt))
     env.pop('FGGS_VERIF', None)
     res = dict(property=pid, patch=patch.name, summary=ch.get('summary'), needs=ch.get('needs'))
+    if not wt.exists():
+        sh(f'git -C /repo worktree add --detach {wt}')
     sh('git checkout -- .', cwd=wt)
     rc, o = sh(f'/venv/bin/python {demo}', cwd=wt, env=env)
     res['demo_without_patch'] = rc
